@@ -735,7 +735,9 @@ def merge_moments(
             circuit,
             lambda op, _: (
                 op.untagged.replace(
-                    circuit=merge_moments(op.untagged.circuit, merge_func, deep=deep)
+                    circuit=merge_moments(
+                        op.untagged.circuit, merge_func, deep=deep, tags_to_ignore=tags_to_ignore
+                    )
                 ).with_tags(*op.tags)
                 if isinstance(op.untagged, circuits.CircuitOperation)
                 else op
